@@ -127,23 +127,33 @@ def run(chk, repo: Repo):
     T = lm.lookup_prop("T")
     if T is None or T.getter is None:
         raise AnchorError("LinearModel.T not found")
-    ctor = [c for c in ast.walk(T.getter) if isinstance(c, ast.Call) and call_name(c) == "LinearModel"]
-    if len(ctor) != 1:
+    ctors = [c for c in ast.walk(T.getter) if isinstance(c, ast.Call) and call_name(c) == "LinearModel"]
+    if not ctors:
         raise AnchorError("LinearModel.T: constructor call not found")
     # positional and keyword arguments are bound to LinearModel.__init__'s parameter list
     iparams = func_params(init)[1:]
-    bound_args = {p_: _norm(a) for p_, a in zip(iparams, ctor[0].args)}
-    bound_args.update({k.arg: _norm(k.value) for k in ctor[0].keywords if k.arg})
-    args = [bound_args.get(p_, "?") for p_ in iparams[:4]]
-    wrapped = [a for a in args[:2] if a in ("self.adjoint", "self.forward")]
-    chk.add("C07-R4", f"{lm.qual}.@T", not wrapped or _has_identity_guard(T.getter), site(repo, T.getter), "raw operators passed to the transposed model",
-            f"the transposed model stores the geometry-wrapped methods {wrapped} in its raw operator slots, so both geometries are applied twice "
-            f"(and the matrix shortcut is the transposed raw matrix): wrong or failing for non-identity geometries", T.getter)
-    tname = [path_of(s_.targets[0]) for s_ in ast.walk(T.getter) if isinstance(s_, ast.Assign) and s_.value is ctor[0]]
-    ok = len(args) == 4 and iparams[2:4] == ["range_geometry", "domain_geometry"] and args[2:] == ["self.domain_geometry", "self.range_geometry"] and \
-        bool(tname) and any(_norm(n) == f"{tname[0]}._matrix=self._matrix.T" for n in ast.walk(T.getter) if isinstance(n, ast.Assign))
-    chk.add("C07-R1", f"{lm.qual}.@T/swap", ok, site(repo, T.getter), "geometries swapped, stored matrix transposed",
-            "transposed model does not swap the geometries / transpose the stored matrix consistently", T.getter)
+    cache_writer = any(isinstance(s_, ast.Assign) and path_of(s_.targets[0]) == "self._matrix" for s_ in ast.walk(repo.method(lm, "get_matrix")[1]))
+    for k_, ctor in enumerate(ctors):
+        tag = "" if len(ctors) == 1 else f"#{k_ + 1}"
+        bound_args = {p_: _norm(a) for p_, a in zip(iparams, ctor.args)}
+        bound_args.update({k.arg: _norm(k.value) for k in ctor.keywords if k.arg})
+        args = [bound_args.get(p_, "?") for p_ in iparams[:4]]
+        wrapped = [a for a in args[:2] if a in ("self.adjoint", "self.forward")]
+        chk.add("C07-R4", f"{lm.qual}.@T{tag}", not wrapped or _has_identity_guard(T.getter), site(repo, T.getter), "raw operators passed to the transposed model",
+                f"the transposed model stores the geometry-wrapped methods {wrapped} in its raw operator slots, so both geometries are applied twice "
+                f"(and the matrix shortcut is the transposed raw matrix): wrong or failing for non-identity geometries", T.getter)
+        if "self._matrix" in args[0] and cache_writer:
+            chk.add("C07-R4", f"{lm.qual}.@T{tag}/stored-matrix-as-raw-operator", _has_identity_guard(T.getter), site(repo, ctor),
+                    "stored matrix used as raw operator only for identity geometries",
+                    f"the transposed model is built on `{args[0]}` as its raw operator, but `self._matrix` is also the slot in which get_matrix() caches the "
+                    f"parameter-to-parameter matrix of a function-backed model: after get_matrix() such a model's transpose acts on the wrong space "
+                    f"(shape errors / geometry applied twice for reshaping geometries)", ctor)
+        tname = [path_of(s_.targets[0]) for s_ in ast.walk(T.getter) if isinstance(s_, ast.Assign) and s_.value is ctor]
+        transposed = (bool(tname) and any(_norm(n) == f"{tname[0]}._matrix=self._matrix.T" for n in ast.walk(T.getter) if isinstance(n, ast.Assign))) \
+            or args[0] == "self._matrix.T"
+        ok = len(args) == 4 and iparams[2:4] == ["range_geometry", "domain_geometry"] and args[2:] == ["self.domain_geometry", "self.range_geometry"] and transposed
+        chk.add("C07-R1", f"{lm.qual}.@T{tag}/swap", ok, site(repo, T.getter), "geometries swapped, stored matrix transposed",
+                "transposed model does not swap the geometries / transpose the stored matrix consistently", T.getter)
     # R5 (on the structural normal form with temporaries such as `n = self.domain_dim` substituted; the buffer and index names are read off)
     gm4 = canon_fn(repo, lm, gm, 4)
     loops = [n for n in ast.walk(gm4) if isinstance(n, ast.For)]
